@@ -5,6 +5,7 @@ import Driver.IterCmd
 import Driver.LsmCmd
 import Driver.DurCmd
 import Driver.ProtoCmd
+import Driver.FilesCmd
 /-
 `raindrv`: one request per line on stdin, one answer per line on stdout.
 Unknown or malformed requests answer `bad-request` (never a default value).
@@ -23,6 +24,7 @@ def dispatch (toks : List String) : String :=
       else if cmd.startsWith "lsm." then lsmCmd toks
       else if cmd.startsWith "dur." then durCmd toks
       else if cmd.startsWith "proto." then protoCmd toks
+      else if cmd.startsWith "files." then filesCmd toks
       else none
     match r with
     | some s => s
